@@ -360,6 +360,13 @@ pub fn gen_print_history(rng: &mut Rng, avoid: &Avoid) -> History {
             items,
             using: None,
         }));
+        if rng.chance(1, 2) {
+            // a built-in call after the nested PRINT and before the return
+            body.push(ids.st(StmtKind::Assign {
+                var: "L1%".into(),
+                expr: Expr::LenOf("abc".into()),
+            }));
+        }
         body.push(ids.st(StmtKind::Assign {
             var: "FP1%".into(),
             expr: Expr::Add(Box::new(Expr::Var("P1%".into())), Box::new(Expr::Int(1))),
@@ -369,6 +376,7 @@ pub fn gen_print_history(rng: &mut Rng, avoid: &Avoid) -> History {
             is_function: true,
             params: vec!["P1%".into()],
             body,
+            is_static: false,
         });
     }
     History {
